@@ -118,6 +118,28 @@ def run_case(case):
     if S_bound(coefs_t, Mall) * (1 + Mall) > 1e-4 * torch.finfo(dtype).max:
         return discard("overflow_range", labels)
 
+    if rel == "stored":
+        # a degree-0 integrand that hands back a tensor it holds (the parameter itself, a view of it, a stored level):
+        # the rule must integrate it to c*(xu-xl) for every n and must leave the caller's tensor untouched
+        k = 1 + (len(coefs_t) % 3)
+        cst = torch.tensor((coefs_t * 3)[:k], dtype=dtype)
+        before = cst.clone()
+        how = case.get("stored", "param")
+
+        def fs(x, c):
+            calls.append(1)
+            return {"param": c, "view": c[:], "reshape": c.reshape(-1), "index": c[0] if False else c[0:k]}[how]
+        res = quad(fs, xl, xu, params=(cst,), n=n)
+        if not torch.equal(cst, before):
+            return violation("input_mutated", "the integrand's own tensor %r was changed to %r by quad (n=%d)" % (before.tolist(), cst.tolist(), n), labels)
+        ref = before.double() * (xuv - xlv)
+        err = float((res.reshape(-1).double() - ref).abs().max())
+        tl = (20 + 4 * n) * eps * float(before.abs().max()) * width + 1e3 * tiny
+        if tuple(res.reshape(-1).shape) != (k,) or not err <= tl:
+            return violation("stored_const", "constant integrand %r on [%r,%r] with n=%d: quad=%r, expected %r" % (
+                before.tolist(), xlv, xuv, n, res.reshape(-1).tolist(), ref.tolist()), labels)
+        return ok(labels + ["stored=" + how], n >= 2 and xlv != xuv)
+
     if rel in ("exact", "nodes"):
         res = quad(f, xl, xu, params=(ctens,), n=n)
         if not isinstance(res, torch.Tensor):
@@ -299,7 +321,7 @@ def _limit(draw, form, deg):
 @st.composite
 def case_st(draw, tier="quick"):
     nmax = 60 if tier == "quick" else 300
-    rel = draw(st.sampled_from(["exact", "exact", "exact", "nodes", "errterm", "linear", "swap", "additive", "tuple", "tensor", "inf"]))
+    rel = draw(st.sampled_from(["exact", "exact", "exact", "nodes", "errterm", "linear", "swap", "additive", "tuple", "tensor", "inf", "stored"]))
     if rel == "inf":
         n = draw(st.one_of(st.integers(2, 40), st.sampled_from([100, 150, 200])))
         fam = draw(st.sampled_from(["gauss", "lorentz", "exp"]))
@@ -326,6 +348,8 @@ def case_st(draw, tier="quick"):
         xl = draw(st.floats(-2, 0, width=32)); xlform = draw(st.sampled_from(["float", "t0", "t1"]))
         xu = xl + draw(st.sampled_from([0.5, 1.0, 2.0, 3.0])); xuform = draw(st.sampled_from(["float", "t0", "t1"]))
     case = {"rel": rel, "n": n, "dtype": dtype, "coefs": coefs, "xl": xl, "xu": xu, "xlform": xlform, "xuform": xuform}
+    if rel == "stored":
+        case["stored"] = draw(st.sampled_from(["param", "view", "reshape", "index"]))
     if rel in ("linear", "tuple", "tensor"):
         d2 = draw(st.integers(0, min(2 * n - 1, 12)))
         case["coefs2"] = [list(draw(_rat)) for _ in range(d2 + 1)]
